@@ -314,6 +314,88 @@ fn op_async(toks: &[Tok], prop: &str) -> Outcome {
     Outcome { result: w.0, oracle }
 }
 
+/// a source that produces first ++ rec * nrec ++ tail without holding it (streams of gigabytes)
+pub struct GenSource {
+    first: Vec<u8>,
+    rec: Vec<u8>,
+    nrec: u64,
+    tail: Vec<u8>,
+    pos: u64,
+}
+impl GenSource {
+    fn total(&self) -> u64 {
+        self.first.len() as u64 + self.nrec * self.rec.len() as u64 + self.tail.len() as u64
+    }
+    fn fill(&mut self, buf: &mut [u8]) -> usize {
+        let mut done = 0;
+        while done < buf.len() && self.pos < self.total() {
+            let (src, off): (&[u8], usize) = if self.pos < self.first.len() as u64 {
+                (&self.first, self.pos as usize)
+            } else {
+                let p = self.pos - self.first.len() as u64;
+                let body = self.nrec * self.rec.len() as u64;
+                if p < body {
+                    (&self.rec, (p % self.rec.len() as u64) as usize)
+                } else {
+                    (&self.tail, (p - body) as usize)
+                }
+            };
+            let k = (src.len() - off).min(buf.len() - done);
+            buf[done..done + k].copy_from_slice(&src[off..off + k]);
+            done += k;
+            self.pos += k as u64;
+        }
+        done
+    }
+}
+impl std::io::Read for GenSource {
+    fn read(&mut self, buf: &mut [u8]) -> std::io::Result<usize> {
+        Ok(self.fill(buf))
+    }
+}
+impl futures::io::AsyncRead for GenSource {
+    fn poll_read(mut self: Pin<&mut Self>, cx: &mut Context<'_>, buf: &mut [u8]) -> Poll<std::io::Result<usize>> {
+        let _ = cx;
+        let n = self.fill(buf);
+        Poll::Ready(Ok(n))
+    }
+}
+
+fn run_generated(is_async: bool, sh: bool, f: &Option<DltFilterConfig>, src: GenSource, limit: usize) -> (Vec<Obs>, bool) {
+    let pf: Option<ProcessedDltFilterConfig> = f.as_ref().map(|c| c.into());
+    let mut out = vec![];
+    if is_async {
+        let mut reader = DltStreamReader::new(src, sh);
+        for _ in 0..limit {
+            match catch_unwind(AssertUnwindSafe(|| futures::executor::block_on(dlt_core::stream::read_message(&mut reader, pf.as_ref())))) {
+                Err(_) => {
+                    out.push(Obs::Panic);
+                    return (out, true);
+                }
+                Ok(r) => match obs_of(r) {
+                    None => return (out, true),
+                    Some(o) => out.push(o),
+                },
+            }
+        }
+    } else {
+        let mut reader = DltMessageReader::new(src, sh);
+        for _ in 0..limit {
+            match catch_unwind(AssertUnwindSafe(|| dlt_core::read::read_message(&mut reader, pf.as_ref()))) {
+                Err(_) => {
+                    out.push(Obs::Panic);
+                    return (out, true);
+                }
+                Ok(r) => match obs_of(r) {
+                    None => return (out, true),
+                    Some(o) => out.push(o),
+                },
+            }
+        }
+    }
+    (out, false)
+}
+
 /// 43 READ_BIG: nrec records of declared length l (zero payload), then a tail: a stream longer than the BufReader
 fn op_read_big(toks: &[Tok], prop: &str) -> Outcome {
     let mut r = R::new(toks);
@@ -339,6 +421,23 @@ fn op_read_big(toks: &[Tok], prop: &str) -> Outcome {
         one
     };
     let one = record(l);
+    if nrec as u64 * one.len() as u64 > (1 << 30) {
+        // gigabytes: generated on the fly, default readers, whole reads; no slicing oracle (nothing to slice)
+        let src = GenSource { first: if l1 != 0 { record(l1) } else { vec![] }, rec: one, nrec: nrec as u64, tail: tail.clone(), pos: 0 };
+        let (obs, fin) = run_generated(is_async, sh, &f, src, nrec + 16);
+        let mut w = W::new();
+        w_obs_list(&mut w, &obs, fin);
+        let mut oracle = vec![];
+        if prop == "C07" || prop == "C08" {
+            if obs.contains(&Obs::Panic) {
+                oracle.push(("no_panic".into(), format!("the reader panicked after {} outcomes ({} bytes)", obs.len() - 1, (obs.len() - 1) as u64 * (storage + l) as u64)));
+            }
+            if !fin {
+                oracle.push(("terminates".into(), "read_message did not report end of stream".into()));
+            }
+        }
+        return Outcome { result: w.0, oracle };
+    }
     let mut data = Vec::with_capacity(nrec * one.len() + tail.len() + storage + l1);
     if l1 != 0 {
         data.extend_from_slice(&record(l1));
